@@ -44,6 +44,7 @@ def check(chk):
     r12(chk, m, tokmod, Context)
     r13(chk, m, Token, Tokenizer)
     r14_r15(chk, m, Tokenizer)
+    r17(chk, m, Tokenizer)
     chk.decline('the concrete token stream of a concrete string (it is the '
                 'transition relation applied character by character)')
     chk.decline(r'substitution of tokens through \let aliases (get_let)')
@@ -87,6 +88,25 @@ def r11(chk, m, Token, Tokenizer):
     sts = [tenv.get('STATE_' + x) for x in 'NMS']
     chk.verdict(R, 'Tokenizer.STATE_N/M/S distinct', len(set(map(repr, sts))) == 3 and None not in sts,
                 'tokenizer states are not three distinct constants: %r' % (sts,), chk.where(Tokenizer))
+
+
+def r17(chk, m, Tokenizer):
+    R = chk.rule('R1.7', 'the stream built for a string source does no newline translation: every character, including a '
+                 'carriage return, reaches the category table as written', 1)
+    fn = m.find_method(Tokenizer, '__init__')
+    need(fn is not None, 'Tokenizer.__init__ not found')
+    chk.analysed(fn)
+    n = 0
+    for c in M.calls_in(fn.node):
+        if M.call_name(c).split('.')[-1] != 'StringIO':
+            continue
+        n += 1
+        nl = [k.value for k in c.keywords if k.arg == 'newline'] + list(c.args[1:2])
+        bad = [text(x) for x in nl if not (isinstance(x, ast.Constant) and x.value in ('', '\n'))]
+        chk.verdict(R, 'Tokenizer.__init__ :: %s' % text(c), not bad,
+                    'the string source is wrapped with newline=%s: universal-newline translation turns \\r and \\r\\n into \\n before '
+                    'the tokenizer sees them, so a carriage return is never categorised by the live table' % bad, chk.where(fn, c))
+    need(n >= 1, 'Tokenizer.__init__ no longer wraps string sources in StringIO')
 
 
 # ---------------------------------------------------------------------------
@@ -143,34 +163,29 @@ def r12(chk, m, tokmod, Context):
     chk.verdict(R, 'VERBATIM_CATEGORIES shape',
                 len(v) == 16 and all(x == '' for i, x in enumerate(v) if i != LET) and isinstance(v[LET], M._StringLetters),
                 'VERBATIM_CATEGORIES must be empty everywhere except LETTER: %r' % (v,), chk.where(tokmod))
-    # setVerbatimCatcodes installs a copy of the verbatim table in the innermost frame
+    # setVerbatimCatcodes / Context.catcode: decided on a small heap (shared with C04)
+    from . import c04
     sv = m.func('plasTeX.Context', 'Context.setVerbatimCatcodes')
     chk.analysed(sv)
-    src = [text(n.value) for n in M.walk_no_nested(sv.node) if isinstance(n, ast.Assign)]
-    chk.verdict(R, 'setVerbatimCatcodes uses VERBATIM_CATEGORIES',
-                any('VERBATIM_CATEGORIES' in s for s in src),
-                'setVerbatimCatcodes does not install VERBATIM_CATEGORIES', chk.where(sv))
-    # Context.catcode
+    res = c04.verbatim_tables(m)
+    need(res, 'setVerbatimCatcodes has no normal exit')
+    got = {('the verbatim table' if (cur is not None and orig is not None and tuple(cur) == tuple(orig)) else
+            ('not determined (TOP)' if cur is None else 'another table')) for cur, orig in res}
+    chk.decide(R, 'setVerbatimCatcodes uses VERBATIM_CATEGORIES', got, {'the verbatim table'},
+               'after setVerbatimCatcodes the table in force is %s; expected the contents of VERBATIM_CATEGORIES' % sorted(got), chk.where(sv))
     cc = m.func('plasTeX.Context', 'Context.catcode')
     chk.analysed(cc)
+    base = [t + ('x' if i in (0, 3, 11, 15) else '') for i, t in enumerate(c04.TABLE)]
     for code in range(16):
-        hooks = WhichHooks(m, Context, None)
-        it = A.Interp(model=m, scope=cc, hooks=hooks, exc_edges=False)
-        outs = it.run_function(cc, env={'code': code, 'char': A.Sym('char')})
-        chk.paths += len(outs)
-        need(len(outs) == 1, 'Context.catcode is not single-path for a fixed code')
-        tr = outs[0][1].trace
-        removed = {ev[2] for ev in tr if ev[0] == 'setitem' and isinstance(ev[2], int)}
-        # the removal must be a str.replace(char, '') of the same slot
-        repl = [ev for ev in tr if ev[0] == 'call' and ev[1].endswith('.replace')]
-        added = [ev[4] for ev in tr if ev[0] == 'aug' and ev[2] == 'Add']
-        good_removed = removed == set(range(16)) and len(repl) >= 16 and all(
-            len(ev[2]) == 2 and ev[2][1] == '' for ev in repl)
-        good_added = (added == [code]) if code != OTH else (added in ([], [OTH]))
-        chk.verdict(R, 'catcode(char, %s)' % CC[code], good_removed and good_added,
-                    'Context.catcode(char, %d): character removed from classes %s (all 16 expected), added to %s (expected [%d]%s)'
-                    % (code, sorted(removed), added, code, ' or none' if code == OTH else ''),
-                    chk.where(cc), 'removed from 16 classes, added to %s' % added)
+        tables = c04.catcode_tables(m, code)
+        chk.paths += len(tables)
+        want = tuple(t.replace('x', '') + ('x' if (i == code and code != OTH) else '') for i, t in enumerate(base))
+        got = {('TOP' if t is None else ('as TeX' if t == want else 'x in classes %s' % [i for i, e in enumerate(t) if 'x' in e])) for t in tables}
+        chk.decide(R, 'catcode(char, %s)' % CC[code], got, {'as TeX'},
+                   'Context.catcode(x, %d) on a table that has x in classes 0, 3, 11 and 15 leaves %s; expected x only in class %d%s and every other '
+                   'character untouched' % (code, sorted(got), code, ' (nowhere: OTHER is the absence of a class)' if code == OTH else ''),
+                   chk.where(cc))
+    c04.r42(chk, m, rule_id='R1.6')
 
 
 # ---------------------------------------------------------------------------
@@ -186,14 +201,38 @@ class TokHooks(SelfHooks):
         self.nexts = nexts          # categories of the following characters
         self.outer_while = None
 
+    def _scripted(self, state):
+        pos = state.env.get('__pos', 0)
+        if pos >= len(self.nexts):
+            return None
+        state.env['__pos'] = pos + 1
+        cat = self.nexts[pos]
+        code = {LETTER: LET, EOLC: EOL, OTHERC: OTH, SPACEC: SP}[cat]
+        return (code, A.Sym('next%d' % pos, attrs={'distinct': True, 'letter': None}))
+
     def call(self, interp, node, fname, args, kwargs, state):
-        if fname == 'next' and len(args) == 1:
-            if state.env.get('__drawn'):
-                # second draw = next iteration of the main loop: stop here
+        if fname == 'next' and len(args) in (1, 2):
+            site = node.lineno
+            if '__site' not in state.env:
+                # the draw of the main loop: the character of this cell
+                state.env['__site'] = site
+                if self.code is None:           # end of input
+                    if len(args) == 2:
+                        return A.NONE if args[1] is None else args[1]
+                    state.env['__exc'] = 'StopIteration'
+                    return A.TOP
+                return (self.code, A.Sym('char', attrs={'distinct': True}))
+            if site == state.env['__site']:
+                # the main loop draws again: the cell ends here
                 state.flags = state.flags + (('second-draw',),)
                 return (A.TOP, A.TOP)
-            state.env['__drawn'] = True
-            return (self.code, A.Sym('char', attrs={'distinct': True}))
+            item = self._scripted(state)        # look-ahead of a control sequence
+            if item is not None:
+                return item
+            if len(args) == 2:
+                return A.NONE if args[1] is None else args[1]
+            state.env['__exc'] = 'StopIteration'
+            return A.TOP
         if fname.endswith('context.get_let') and len(args) == 1:
             return args[0]          # identity summary: no \let alias in force
         return None
@@ -216,22 +255,30 @@ class TokHooks(SelfHooks):
         itv = interp.ev(loop.iter, state)
         if not (isinstance(itv, A.Sym) or itv is A.TOP):
             return None
-        pos = state.env.get('__pos', 0)
-        if pos >= len(self.nexts):
+        if '__site' not in state.env:
+            # a main loop written as `for code, char in <reader>`
+            state.env['__site'] = loop.lineno
+            if self.code is None:
+                return A.STOP
+            return (self.code, A.Sym('char', attrs={'distinct': True}))
+        if loop.lineno == state.env['__site']:
+            state.flags = state.flags + (('second-draw',),)
             return A.STOP
-        state.env['__pos'] = pos + 1
-        cat = self.nexts[pos]
-        code = {LETTER: LET, EOLC: EOL, OTHERC: OTH, SPACEC: SP}[cat]
-        ch = A.Sym('next%d' % pos, attrs={'distinct': True, 'letter': None})
-        return (code, ch)
+        item = self._scripted(state)
+        return item if item is not None else A.STOP
 
     def keep(self, ev):
         return ev[0] in ('yield', 'continue', 'return', 'call', 'assume')
 
 
+PRIMITIVES = {'readline', 'pushChar', 'pushToken', 'pushTokens', 'iterchars', 'read', 'seek', 'tell', '__iter__'}
+
+
 def run_cell(m, fn, cls, body_env, consts, state_name, code, nexts):
     hooks = TokHooks(m, cls, body_env, code, nexts)
-    it = A.Interp(model=m, scope=fn, hooks=hooks, max_iter=1, exc_edges=False)
+    # private helpers of the tokenizer are interpreted in place; the reader primitives are the interface of the cell model
+    hooks.should_inline = lambda fname, node, info: getattr(node, 'name', '') not in PRIMITIVES
+    it = A.Interp(model=m, scope=fn, hooks=hooks, max_iter=1, exc_edges=False, precise_exc=True, inline=2)
     env = {'self.state': consts['STATE_' + state_name]}
     outs = it.run_function(fn, env=env)
     res = set()
@@ -300,10 +347,9 @@ def r13(chk, m, Token, Tokenizer):
                 ok = got <= want and ((('EscapeSequence', 'par'),), 'N', False, 0) in got
             else:
                 ok = got == want
-            chk.verdict(R, 'cell(state=%s, code=%s)' % (stn, CC[code]), ok,
-                        'state %s, category %s: abstract outcomes %s, TeX prescribes %s'
-                        % (stn, CC[code], _fmt(got), _fmt(want)), chk.where(fn),
-                        _fmt(got))
+            cell_verdict(chk, R, 'cell(state=%s, code=%s)' % (stn, CC[code]), ok, got,
+                         'state %s, category %s: abstract outcomes %s, TeX prescribes %s'
+                         % (stn, CC[code], _fmt(got), _fmt(want)), chk.where(fn))
     # escape cells: next characters
     scen = [
         ('letter,other', [LETTER, OTHERC], {((('EscapeSequence', '<word>'),), 'S', False, 1)}),
@@ -325,26 +371,35 @@ def r13(chk, m, Token, Tokenizer):
             if not ok:
                 conds = sorted({a for d in detail for a in d[4]})
                 extra = '; outcome depends on: %s' % ', '.join('%s=%s' % c for c in conds[:4])
-            chk.verdict(R, 'cell(state=%s, code=ESCAPE, next=%s)' % (stn, name), ok,
-                        'state %s, escape followed by %s: abstract outcomes %s, TeX prescribes %s '
-                        '(control word: skip blanks, state S, decided by the CATEGORY of the characters read; '
-                        'control symbol: state M)%s' % (stn, name, _fmt(got), _fmt(want), extra),
-                        chk.where(fn), _fmt(got))
+            cell_verdict(chk, R, 'cell(state=%s, code=ESCAPE, next=%s)' % (stn, name), ok, got,
+                         'state %s, escape followed by %s: abstract outcomes %s, TeX prescribes %s '
+                         '(control word: skip blanks, state S, decided by the CATEGORY of the characters read; '
+                         'control symbol: state M)%s' % (stn, name, _fmt(got), _fmt(want), extra),
+                         chk.where(fn))
     # escape followed by end-of-line: exactly one token (control space or space -
     # the property does not fix which); the line ends there, so the next line
     # starts in state N (blanks skipped, an empty line is a paragraph)
     for stn in 'NMS':
         got, detail = run_cell(m, fn, Tokenizer, body_env, consts, stn, ESC, [EOLC])
         ok = len(got) == 1 and all(len(t) == 1 and c == 1 and s == 'N' for (t, s, rl, c) in got)
-        chk.verdict(R, 'cell(state=%s, code=ESCAPE, next=eol)' % stn, ok,
-                    'escape followed by end-of-line must give exactly one token and leave state N (new line: '
-                    'blanks at the line start skipped, blank line = paragraph): %s' % _fmt(got),
-                    chk.where(fn), _fmt(got))
+        cell_verdict(chk, R, 'cell(state=%s, code=ESCAPE, next=eol)' % stn, ok, got,
+                     'escape followed by end-of-line must give exactly one token and leave state N (new line: '
+                     'blanks at the line start skipped, blank line = paragraph): %s' % _fmt(got),
+                     chk.where(fn))
     # end of input terminates the generator
-    h = [n for n in M.walk_no_nested(fn.node) if isinstance(n, ast.ExceptHandler) and n.type is not None and 'StopIteration' in text(n.type)]
-    ok = bool(h) and all(any(isinstance(x, ast.Return) for x in hh.body) for hh in h)
-    chk.verdict(R, 'end of input ends the token stream', ok,
-                'exhaustion of the character reader does not end Tokenizer.__iter__ by return', chk.where(fn))
+    got, detail = run_cell(m, fn, Tokenizer, body_env, consts, 'N', None, [])
+    cell_verdict(chk, R, 'end of input ends the token stream', got == {((), 'N', False, 0)}, got,
+                 'when the character reader is exhausted Tokenizer.__iter__ must end without a token: %s' % _fmt(got), chk.where(fn))
+
+
+def cell_verdict(chk, R, key, ok, got, msg, where):
+    """holds / FAILS when every abstract outcome is definite; undecided when an outcome has an unknown token or state."""
+    if ok:
+        chk.ok(R, key, _fmt(got))
+    elif not got or any(st == '?' or any(t[0] == '?' for t in toks) for toks, st, rl, c in got):
+        chk.undecided(R, key, 'outcome not determined by the abstract interpretation; ' + msg, where)
+    else:
+        chk.fail(R, key, msg, where)
 
 
 def _fmt(cells):
@@ -387,7 +442,7 @@ class ReadHooks(SelfHooks):
 
     def lookup(self, interp, name, state):
         if name == 'self._charBuffer':
-            return A.Sym('charbuffer')          # truthiness unknown: both the buffer and the source are read
+            return A.Sym('charbuffer', attrs={'path': 'self._charBuffer'})   # truthiness unknown: both the buffer and the source are read
         if name in ('self.read', 'self.context.whichCode'):
             return A.Sym(name)
         return SelfHooks.lookup(self, interp, name, state)
